@@ -154,7 +154,7 @@ def checkFS (toks : List String) : List Div :=
     | _ => none
   let allowed := inputs.map (fun i => "p/" ++ genNameS i) ++ outs
   let created := listOf ((f "created").getD "-") ","
-  let known := id == "collide"
+  let known := id == "collide" || id == "pkgs"   -- "pkgs" (two packages, `./...`) is decided by the harness's X line
   let d1 := if !known && ((f "modified") != some "-" || (f "deleted") != some "-") then [("fs.modified", id ++ " a pre-existing file was modified or deleted")] else []
   let d2 := if !known && created.any (fun p => !allowed.contains p) then [("fs.created", s!"{id} created {created} allowed {allowed}")] else []
   let d3 := if !known && id != "file:dup" && (f "exit") != some "0" then [("fs.exit", id)] else []
